@@ -6,6 +6,8 @@ FUNCTIONS = [
     'circus.watcher:Watcher.spawn_process',
     # the managed sockets are closed only by the shutdown closer
     'circus.arbiter:Arbiter.stop_controller_and_close_sockets',
+    # reload half, snapshot only: what a re-read socket section is compared with
+    'circus.sockets:CircusSocket.load_from_config',
 ]
 EXCLUDE_CLAUSES = ['post[accounted]:Watcher.spawn_process']
 LEMMAS = []
@@ -34,10 +36,10 @@ NOT_DECIDED = ['that the descriptor number substituted in the command line is th
                '_get_sockets_fds are trusted)',
                'that the socket stays open and listening for the daemon\'s whole life (kernel state); only "no code path other '
                'than the shutdown closer and reload_from_config closes it" is decided, by frame scan',
-               'WHEN reload_from_config closes and rebinds a socket: it does so for every socket whose section differs from '
-               'the snapshot CircusSocket._cfg; neither Arbiter.reload_from_config nor CircusSocket.load_from_config (which '
-               'takes the snapshot) is under contract (see C12, not applicable) -- seeded change C07-5 (snapshot of the '
-               'normalised parameters instead of the raw section: every reload rebinds every socket) is NOT detected',
+               'WHEN reload_from_config closes and rebinds a socket: it does so for every socket whose re-read section differs '
+               'from the snapshot CircusSocket._cfg. That the snapshot IS the raw section (a copy of it) is under contract '
+               '(CircusSocket.load_from_config); the comparison and the close/rebind in Arbiter.reload_from_config are not '
+               '(see C12, not applicable)',
                'descriptor inheritance across fork/exec itself']
 DESIGN_REF = 'DESIGN.md section 13.6'
 TECHNIQUE = ('contract-based deductive verification (call-site obligations / ghost record of the Popen arguments) plus '
